@@ -775,6 +775,8 @@ func (c *evalCtx) callExpr(n *ast.CallExpr) Value {
 			r = vv.R
 		case If:
 			r = vv.Pl
+		case MapV:
+			r = vv.Ref
 		default:
 			c.errf("fresh of %T", v)
 		}
